@@ -1,9 +1,9 @@
 package main
 
 import (
-	"go/constant"
 	"fmt"
 	"go/ast"
+	"go/constant"
 	"go/token"
 	"go/types"
 	"sort"
@@ -573,11 +573,11 @@ func ruleMPTBatchSource(c *Ctx) {
 	}
 	// after the batch, L is only used by the tabled non-writing consumers
 	allowed := map[string]string{
-		symAddMPTBatch:    "writes trie nodes (DataMPT) only",
-		symPersistPrivate: "the publish",
+		symAddMPTBatch:                    "writes trie nodes (DataMPT) only",
+		symPersistPrivate:                 "the publish",
 		"pkg/core/dao.(*Simple).GetBatch": "read-only snapshot for SaveStorageBatch",
-		symGetStorChanges: "the batch itself",
-		symMapToBatch:     "the batch itself",
+		symGetStorChanges:                 "the batch itself",
+		symMapToBatch:                     "the batch itself",
 	}
 	nuse := 0
 	for _, b := range f.G.Blocks {
